@@ -218,21 +218,22 @@ Print Assumptions C06_hext_text_spec_model.
 (* ---- TriX at the level of the XML tree *)
 
 (* the tree _writeGraph/_writeTriple build is read by the TriXHandler state machine as the
-   graphs of the dataset: IRI-named graphs under their name, blank-node-named graphs
-   as ANONYMOUS graphs (F17, visible in [expect_doc]).  Partial: IRIs must not begin or
-   end with a character str.strip() removes (F20). *)
-Theorem C06_trix_tree_partial : forall gs, forallb trix_wf gs = true -> forallb trix_ok gs = true ->
-  rd_doc (wr_doc gs) = Some (expect_doc gs).
+   graphs of the dataset, for EVERY well-formed dataset: IRI-named graphs under their
+   name, blank-node-named graphs as ANONYMOUS graphs (F17, visible in [expect_doc]).
+   The reader strips XML white space only, which no valid IRI or label contains. *)
+Theorem C06_trix_tree : forall gs, forallb trix_wf gs = true -> rd_doc (wr_doc gs) = Some (expect_doc gs).
 Proof. exact trix_tree_roundtrip. Qed.
-Print Assumptions C06_trix_tree_partial.
+Print Assumptions C06_trix_tree.
 
-Theorem C06_trix_tree_refuted :
-  forallb trix_wf f20_witness = true /\ xt_kf (XtWrite f20_witness) = 1%N
-  /\ xt_spec (XtWrite f20_witness) (xt_model (XtWrite f20_witness)) = false.
-Proof. exact trix_strip_refuted. Qed.
-Print Assumptions C06_trix_tree_refuted.
+(* the reader before the repair of finding F20 (str.strip() without argument, i.e. the class
+   str.isspace) did not have the property: U+00A0 at the end of an IRI was removed *)
+Theorem C06_trix_tree_prefix_refuted :
+  forallb trix_wf f20_witness = true
+  /\ opt_eqb segs_eqb (rd_doc_gen is_space (wr_doc f20_witness)) (Some (expect_doc f20_witness)) = false.
+Proof. exact trix_strip_prefix_refuted. Qed.
+Print Assumptions C06_trix_tree_prefix_refuted.
 
-Theorem C06_trix_tree_spec_model : forall c, xt_wf c = true -> xt_kf c = 0%N -> xt_spec c (xt_model c) = true.
+Theorem C06_trix_tree_spec_model : forall c, xt_wf c = true -> xt_spec c (xt_model c) = true.
 Proof. exact xt_spec_model. Qed.
 Print Assumptions C06_trix_tree_spec_model.
 
